@@ -1,1 +1,24 @@
-fn main() {}
+//! Harness for the RESP layer (crates/sierradb-server, crates/sierradb-client): command
+//! grammar (C21) and the single-node RESP API against the event-store model (C22).
+use hcommon::Report;
+
+mod client;
+mod parse;
+
+fn main() {
+    if std::env::var("VERIF_LOUD").is_err() {
+        hcommon::quiet_panics();
+    }
+    let args: Vec<String> = std::env::args().collect();
+    let mut rep = Report::new();
+    match args[1].as_str() {
+        "parse" => {
+            parse::parse_cmd(&mut rep, &args[2]);
+            let rt = tokio::runtime::Builder::new_multi_thread().worker_threads(2).enable_all().build().unwrap();
+            rt.block_on(client::client_cmd(&mut rep));
+        }
+        other => panic!("unknown subcommand {other}"),
+    }
+    rep.finish();
+    std::process::exit(0);
+}
